@@ -203,3 +203,44 @@ Definition py_screen (tnames : names2d) (tdoses : doses2d) (samples plates : lis
   mk_screen (zip_rows (snd tnames) (snd tdoses) samples plates ob mk) (fst tnames)
             (match ctrl with Some c => c | None => [] end) tmap smap
             (match obs with Some _ => true | None => false end) (match mask with Some _ => true | None => false end).
+
+(* ---- Screen.set_observed: numpy boolean-mask assignment on the two arrays it writes ---- *)
+(* a[m] = vs, one value per selected position, consumed from the left *)
+Fixpoint mask_put {A} (m : list bool) (vs : list A) (a : list A) : list A :=
+  match m, a with
+  | b :: m', x :: a' =>
+      if b then match vs with
+                | v :: vs' => v :: mask_put m' vs' a'
+                | [] => x :: mask_put m' [] a'
+                end
+      else x :: mask_put m' vs a'
+  | _, _ => a
+  end.
+(* a[m] = v, v an array: IndexError (tag 10) when the mask's length is not the array's; v must have as many values as m
+   selects, or exactly one (broadcast); otherwise ValueError (tag 11) *)
+Definition np_mask_assign {A} (a : list A) (m : list bool) (v : list A) : result (list A) :=
+  if negb (Nat.eqb (length m) (length a)) then Err 10
+  else
+    let k := count_true m in
+    if Nat.eqb (length v) k then Ok (mask_put m v a)
+    else match v with
+         | [x] => Ok (mask_put m (repeat x k) a)
+         | _ => Err 11
+         end.
+(* a[m] = x, x a scalar *)
+Definition np_mask_fill {A} (a : list A) (m : list bool) (x : A) : result (list A) :=
+  if negb (Nat.eqb (length m) (length a)) then Err 10
+  else Ok (mask_put m (repeat x (count_true m)) a).
+
+(* the screen whose _observations / _observation_mask arrays are [ob] / [mk], everything else as in s *)
+Definition with_cols (o : Z) (b : bool) (r : row) : row :=
+  {| r_sample := r_sample r; r_plate := r_plate r; r_treats := r_treats r; r_obs := o; r_mask := b |}.
+Fixpoint put_cols (rows : list row) (ob : list Z) (mk : list bool) : list row :=
+  match rows, ob, mk with
+  | r :: rows', o :: ob', b :: mk' => with_cols o b r :: put_cols rows' ob' mk'
+  | _, _, _ => []
+  end.
+Definition set_cols (s : screen) (ob : list Z) (mk : list bool) : screen :=
+  {| s_rows := put_cols (s_rows s) ob mk; s_arity := s_arity s; s_ctrl := s_ctrl s;
+     s_tmap := s_tmap s; s_smap := s_smap s; s_pmap := s_pmap s;
+     s_tids := s_tids s; s_sids := s_sids s; s_pids := s_pids s |}.
